@@ -14,11 +14,11 @@ Two semantics are modelled:
 namespace WS.History
 
 /-- what an observation was computed from: (efth version, dir version, known attribute names at call time) -/
-structure Obs where
-  efth : Nat
-  dir : Nat
-  freq : Nat
-  attrKnown : Bool
+inductive Obs where
+  /-- a result computed from the object's contents: (efth version, dir version, freq version, attribute name known) -/
+  | stat (efth dir freq : Nat) (attrKnown : Bool)
+  /-- the result of a reader call: a function of the dataset handed to the reader (identified by its index) alone -/
+  | reader (input : Nat)
 deriving Repr, DecidableEq
 
 inductive Op where
@@ -31,6 +31,7 @@ inductive Op where
   | attrLookup (key : String)   -- a call that looks `key` up in the global attribute table (e.g. crsd())
   | unknownStat                 -- stats(['nope']) → ValueError
   | read                        -- a reader helper call on an unrelated dataset
+  | readObs (input : Nat)       -- an *observed* reader call (read_dataset / from_ww3 / …) on in-memory dataset no. `input`
 deriving Repr, DecidableEq
 
 structure State where
@@ -55,7 +56,7 @@ def ymlStats : List String :=
 
 /-- repaired semantics: every observation is computed from the current contents; only the C shape memo changes -/
 def stepNew (s : State) : Op → State × Option Obs
-  | .statDs n | .statDa n => (s, some ⟨s.efthVer, s.dirVer, s.freqVer, ymlStats.contains n⟩)
+  | .statDs n | .statDa n => (s, some (.stat s.efthVer s.dirVer s.freqVer (ymlStats.contains n)))
   | .editEfth => ({ s with efthVer := s.efthVer + 1 }, none)
   | .assignDir => ({ s with dirVer := s.dirVer + 1 }, none)
   | .assignFreq => ({ s with freqVer := s.freqVer + 1 }, none)
@@ -63,6 +64,7 @@ def stepNew (s : State) : Op → State × Option Obs
   | .attrLookup _ => (s, none)
   | .unknownStat => (s, none)
   | .read => (s, none)
+  | .readObs v => (s, some (.reader v))
 
 /-- semantics of the code as found -/
 def stepOld (s : State) : Op → State × Option Obs
@@ -73,12 +75,12 @@ def stepOld (s : State) : Op → State × Option Obs
     let (dv, memo) := match s.ddMemo with
       | some (e, d) => if e = b then (d, s.ddMemo) else (s.dirVer, some (b, s.dirVer))
       | none => (s.dirVer, some (b, s.dirVer))
-    ({ s with bound := some b, ddMemo := memo }, some ⟨b, dv, s.freqVer, ymlStats.contains n || s.inserted.contains n⟩)
+    ({ s with bound := some b, ddMemo := memo }, some (.stat b dv s.freqVer (ymlStats.contains n || s.inserted.contains n)))
   | .statDa n =>
     let (dv, memo) := match s.ddMemo with
       | some (e, d) => if e = s.efthVer then (d, s.ddMemo) else (s.dirVer, some (s.efthVer, s.dirVer))
       | none => (s.dirVer, some (s.efthVer, s.dirVer))
-    ({ s with ddMemo := memo }, some ⟨s.efthVer, dv, s.freqVer, ymlStats.contains n || s.inserted.contains n⟩)
+    ({ s with ddMemo := memo }, some (.stat s.efthVer dv s.freqVer (ymlStats.contains n || s.inserted.contains n)))
   | .editEfth => ({ s with efthVer := s.efthVer + 1 }, none)
   | .assignDir => ({ s with dirVer := s.dirVer + 1 }, none)
   | .assignFreq => ({ s with freqVer := s.freqVer + 1 }, none)
@@ -86,6 +88,7 @@ def stepOld (s : State) : Op → State × Option Obs
   | .attrLookup k => ({ s with inserted := k :: s.inserted }, none)
   | .unknownStat => (s, none)
   | .read => (s, none)
+  | .readObs v => (s, some (.reader v))
 
 def run (step : State → Op → State × Option Obs) (s : State) : List Op → State × List (Option Obs)
   | [] => (s, [])
